@@ -23,8 +23,8 @@ RULE = (
     "(a) catalogue of %d call templates covering every public function of verde, verde.utils, verde.base and every public method of every "
     "estimator / reducer / cross-validator; for each template: base run, a second identical run, and one run per array slot with that slot "
     "read-only and one with it as a non-contiguous view, plus all slots read-only. (b) explicit-state BFS over histories of %d estimator specs "
-    "with the event alphabet {fit(D_a), fit(D_b), fit(D_c), predict, filter(D_a), grid, clone, set_params(**get_params()), caller overwrites "
-    "the arrays it passed earlier}, depth 3 (thorough 4), every history replayed on a fresh estimator (histories merged on (abstract state, concrete fingerprint) only for SplineCV), invariant: the "
+    "with the event alphabet {fit(D_a), fit(D_b), fit(D_c), predict, filter(D_a), grid, clone, set_params(**get_params()), switch to an "
+    "alternative / back to the base parameter set through set_params, caller overwrites the arrays it passed earlier}, depth 3 (thorough 4), every history replayed on a fresh estimator (histories merged on (abstract state, concrete fingerprint) only for SplineCV), invariant: the "
     "fingerprint equals that of the shortest history with the same abstract state. (c) %d single inconsistencies that must raise. "
     "Non-trivial: every case."
 )
@@ -70,7 +70,29 @@ SPECS = {
 VECTOR_SPECS = {"VectorSpline2D", "VectorSpline2D(force_coords)", "Vector"}
 NO_OVERWRITE = {"Linear", "Cubic"}
 DEDUPE = {"SplineCV"}
-EVENTS = ["fit_a", "fit_b", "fit_c", "predict", "filter_a", "grid", "clone", "params", "overwrite"]
+EVENTS = ["fit_a", "fit_b", "fit_c", "predict", "filter_a", "grid", "clone", "params", "overwrite", "alt", "base"]
+
+
+def _set_alt(spec, est, alt):
+    """Switch the estimator between its base parameter set and an alternative one through the public set_params
+    (for composites: on the first sub-estimator).  Added after seed C20-2 (a memo that set_params did not invalidate)."""
+    table = {
+        "Spline": ("damping", None, 1e-1), "Spline(damping)": ("damping", 1e-2, 1.0), "Spline(force_coords)": ("damping", 1e-3, 1e-1),
+        "SplineCV": ("dampings", (1e-3, 1e-1), (1e-2, 1.0)), "Trend(1)": ("degree", 1, 2), "KNeighbors(2)": ("k", 2, 3),
+        "Linear": ("rescale", False, True), "Cubic": ("rescale", False, True), "VectorSpline2D": ("poisson", 0.5, 0.0),
+        "VectorSpline2D(force_coords)": ("poisson", 0.5, 0.0),
+    }
+    if spec in table:
+        name, base, other = table[spec]
+        est.set_params(**{name: other if alt else base})
+    elif spec == "Vector":
+        est.components[0].set_params(degree=2 if alt else 1)
+    elif spec == "Chain":
+        est.steps[0][1].set_params(degree=2 if alt else 1)
+    elif spec == "Chain(reduce)":
+        est.steps[1][1].set_params(degree=0 if alt else 1)
+    else:
+        raise ValueError(spec)
 
 
 # ------------------------------------------------------------------------------------------ catalogue
@@ -239,6 +261,8 @@ class Driver:
         self.owned = []
         self.last = None
         self.first = None
+        self.pset = "base"
+        self.fitted_pset = None
         self.errors = []
 
     def apply(self, ev):
@@ -257,8 +281,18 @@ class Driver:
                 else:
                     est.filter(coords, data)
                 self.last = which
+                self.fitted_pset = self.pset
                 if self.first is None:
                     self.first = which
+            elif ev in ("alt", "base"):
+                # parameters that differ from those of the last fit make predictions undefined until the next fit ("stale")
+                _set_alt(self.spec, est, ev == "alt")
+                self.pset = ev
+            elif self.stale and ev in ("predict", "grid"):
+                try:
+                    est.predict(PROBE)
+                except Exception:  # noqa: BLE001
+                    pass
             elif ev == "predict":
                 if self.last is None:
                     try:
@@ -280,6 +314,7 @@ class Driver:
             elif ev == "clone":
                 self.est = clone(est)
                 self.last = None
+                self.fitted_pset = None
             elif ev == "params":
                 est.set_params(**est.get_params())
             elif ev == "overwrite":
@@ -288,14 +323,19 @@ class Driver:
             else:
                 raise ValueError(ev)
 
+    @property
+    def stale(self):
+        return self.last is not None and self.fitted_pset != self.pset
+
     def abstract(self):
-        if self.spec == "VectorSpline2D":
-            return (self.last, self.first)
-        return (self.last,)
+        return (self.last, self.first if self.spec == "VectorSpline2D" else None, self.pset, self.fitted_pset)
 
     def fingerprint(self):
         est = self.est
         fp = [repr(sorted((k, _short(v)) for k, v in est.get_params().items()))]
+        if self.stale:
+            fp.append("stale")
+            return fp
         if self.last is None:
             fp.append("unfitted")
             fp.append(sorted(a for a in vars(est) if a.endswith("_") and not a.startswith("_")))
@@ -325,20 +365,23 @@ def _replay(vd, spec, hist):
 
 
 def _canonical_history(spec, abstract):
-    if spec == "VectorSpline2D":
-        last, first = abstract
-        h = []
-        if first is not None:
-            h.append("fit_" + first)
-        if last is None:
-            if first is not None:
-                h.append("clone")
-        elif last != first or True:
-            if not (first == last and len(h) == 1):
-                h.append("fit_" + last)
-        return h
-    (last,) = abstract
-    return [] if last is None else ["fit_" + last]
+    """Shortest history with the same abstract state: [fit(first)] (VectorSpline2D's documented memory), switch to the parameter set of
+    the last fit, fit(last), switch to the current parameter set."""
+    last, first, pset, fitted_pset = abstract
+    h = []
+    if first is not None and first != last:
+        h.append("fit_" + first)
+    if first is not None and last is None:
+        h.append("clone")
+    if last is not None:
+        if fitted_pset == "alt":
+            h.append("alt")
+        h.append("fit_" + last)
+        if pset != fitted_pset:
+            h.append(pset)
+    elif pset == "alt":
+        h.append("alt")
+    return h
 
 
 def _invalid_list():
